@@ -8,7 +8,12 @@ from framework import Task
 
 def tasks(tier, seed):
     # reading outside the caller's containers while encoding puts foreign heap bytes into the output: counts here, too
-    ts = CC.rt_tasks(tier, kinds={'uninit_output', 'memory'}) + CC.rt_tasks(tier, kinds={'uninit_output', 'memory'}, entry='h_default')
+    ts = CC.rt_tasks(tier, kinds={'uninit_output', 'memory', 'address_dependent'}) + CC.rt_tasks(tier, kinds={'uninit_output', 'memory'}, entry='h_default')
+    for t in ts:
+        if t.entry == 'h_rt':
+            # the same paths once more with every heap object at another address: emitted bytes must be the same terms
+            t.opts = dict(t.opts or {}, twin_heap_shift=0x23450, twin_tags=('bytes1',))
+            t.desc += '; executed twice, the second time with the heap shifted by 0x23450 bytes: the emitted bytes must not change'
     # sparse population: only the members that steer the codec's control flow (found by a pre-run: they occur in a path
     # condition of the round-trip harness) are set, symbolically; every other member keeps its constructed value, so a
     # member without initialiser that only one variant emits shows up as dependence on never-written memory
